@@ -29,7 +29,7 @@ func Replay(path string) int {
 		return 2
 	}
 	files, _ := harnessFiles(rec.Property)
-	g := &group{dir: rec.Dir}
+	g := &group{dir: rec.Dir, prop: rec.Property}
 	for _, f := range files {
 		h, err := parseHarness(f)
 		if err != nil {
